@@ -250,7 +250,7 @@ def _build_model(ms, env: Env, open_models: dict):
         if d is not None and d[0] == "v":
             ns[f"{pfx}_D{i}"] = codec.build(d[1], env)
         elif d is not None and d[0] == "f":
-            ns[f"{pfx}_F{i}"] = {"list": list, "dict": dict, "set": set}[d[1]]
+            ns[f"{pfx}_F{i}"] = {"list": list, "dict": dict, "set": set, "str": str, "bytes": bytes, "tuple": tuple}[d[1]]
     if kind == "dataclass":
         opts = ms.get("opts", "")
         lines.append(f"@dataclass({opts})")
@@ -733,6 +733,16 @@ def _st_default(draw, tspec, kind):
         return ["nr"]
     if base[0] in ("list", "dict", "set") and kind in ("dataclass", "attrs"):
         return ["f", base[0]]
+    if kind in ("dataclass", "attrs") and draw(st.booleans()):
+        # factories with a known literal (list, dict, tuple, str, bytes) get special treatment in generated code
+        if base[0] in ("any", "object"):
+            return ["f", draw(st.sampled_from(["list", "dict", "str", "tuple"]))]
+        if base[0] in ("str", "literalstring"):
+            return ["f", "str"]
+        if base[0] in ("bytes", "bytestring"):
+            return ["f", "bytes"]
+        if base[0] == "vtuple" or (base[0] == "abc" and ABC_IMPL[base[1]] is tuple):
+            return ["f", "tuple"]
     if base[0] == "optional" and strip(base[1])[0] in ("list", "dict", "set") and kind in ("dataclass", "attrs"):
         return ["f", strip(base[1])[0]]   # Optional[list] = field(default_factory=list): None is a falsy non-default value
     if contains(tspec, *_MUTABLE_TAGS) or any(s[0] == "abc" and s[1].startswith("Mutable") for s in walk(tspec)):
@@ -926,6 +936,8 @@ def falsy_value(spec):  # noqa: PLR0911
     tag = s[0]
     if tag == "optional" or tag == "none":
         return None
+    if tag in ("any", "object"):
+        return 0
     if tag == "int":
         return 0
     if tag == "float":
